@@ -292,4 +292,70 @@ example : ∃ (s : St Nat Nat) (log : List (Nat × Obs Nat Nat)), Run ⟨0, 0⟩
   have r9 := Run.obs r8 (CStep.rread _ 1 rfl)
   exact ⟨_, _, r9, rfl⟩
 
+/-! ## read-only extensions (`txhashset::extending_readonly`, `header_extending_readonly`)
+
+`Chain::get_merkle_proof`, `get_locator_hashes`, `set_txhashset_roots`, `validate`,
+`validate_tx` (NRD path), `verify_coinbase_maturity` (write-lock path), `Chain::segmenter` →
+`init_segmenter`: take the write lock(s), rewind / apply on the private (unsynced) part of the MMR
+backends and a child batch, then `force_rollback` — in the model: `wlock`, any number of `work`
+steps, `abort`. -/
+
+/-- the private copy after a list of work steps -/
+def workAll (w : Shared D M) : List (Shared D M → Shared D M) → Shared D M
+  | [] => w
+  | f :: fs => workAll (f w) fs
+
+/-- finitely many silent steps of the commit-protocol system -/
+inductive Silent : St D M → St D M → Prop where
+  | refl (s : St D M) : Silent s s
+  | step {s s' s'' : St D M} : Silent s s' → CStep s' none s'' → Silent s s''
+
+theorem Silent.head {s s1 s' : St D M} (h1 : CStep s none s1) (h : Silent s1 s') : Silent s s' := by
+  induction h with
+  | refl => exact Silent.step (Silent.refl _) h1
+  | step _ hs ih => exact Silent.step ih hs
+
+/-- a writer in phase `working b w` can run any list of private work steps; nothing but its own
+phase changes -/
+theorem work_chain (fs : List (Shared D M → Shared D M)) : ∀ (s : St D M) (tid : Nat) (b w : Shared D M),
+    s.wr tid = .working b w →
+    ∃ s', Silent s s' ∧ s'.wr tid = .working b (workAll w fs) ∧ s'.sh = s.sh ∧ s'.ts = s.ts ∧ s'.k = s.k ∧
+      s'.hist = s.hist ∧ s'.bases = s.bases ∧ ∀ j, j ≠ tid → s'.wr j = s.wr j := by
+  induction fs with
+  | nil => intro s tid b w h; exact ⟨s, Silent.refl s, h, rfl, rfl, rfl, rfl, rfl, fun _ _ => rfl⟩
+  | cons f fs ih =>
+    intro s tid b w h
+    have st := CStep.work s tid b w f h
+    obtain ⟨s', hs, hw, hsh, hts, hk, hh, hb, hj⟩ :=
+      ih { s with wr := fun j => if j = tid then .working b (f w) else s.wr j } tid b (f w) (by simp)
+    refine ⟨s', Silent.head st hs, hw, hsh, hts, hk, hh, hb, ?_⟩
+    intro j hne
+    rw [hj j hne]
+    simp [hne]
+
+/-- what a read-only extension would do if its rollback were lost (the closure's error propagated
+past `force_rollback`, the seeded change C17-F): the private MMR work is published and the lock
+released, no commit -/
+def leakUnlock (s : St D M) (tid : Nat) : St D M :=
+  match s.wr tid with
+  | .working _ w => { s with sh := { s.sh with mmr := w.mmr }, ts := .free,
+                             wr := fun j => if j = tid then .idle else s.wr j }
+  | _ => s
+
+/-- thread 3 inside a read-only extension that has rewound the MMR part of its private copy -/
+def leakExample : St Nat Nat :=
+  { sh := ⟨0, 0⟩, ts := .writer 3, k := 0, hist := [⟨0, 0⟩], bases := [],
+    wr := fun j => if j = 3 then .working ⟨0, 0⟩ ⟨0, 9⟩ else .idle }
+
+/-- `Chain::txhashset_write` (chain.rs, install of a zipped state) as the code has it: the LMDB part
+of the new state `w` (body head, output_pos index, block sums) is committed while the thread holds
+`header_pmmr.write()` but NOT the txhashset lock - readers holding `txhashset.read()` are not
+excluded; the MMR part follows later under `txhashset.write()` (`installSwap`). -/
+def installCommit (s : St D M) (w : Shared D M) : St D M :=
+  { s with sh := { s.sh with db := w.db }, k := s.k + 1, hist := w :: s.hist, bases := s.sh :: s.bases }
+
+/-- second half: the MMR files are swapped in (needs the txhashset lock free: `txhashset.write()`) -/
+def installSwap (s : St D M) (w : Shared D M) : St D M :=
+  { s with sh := { s.sh with mmr := w.mmr } }
+
 end GV.Conc.Commit
